@@ -167,8 +167,52 @@ pub fn run(op: &str, a: &Args) -> Option<Args> {
             })).unwrap_or(false);
             if op == "c09.validate" { Some(vec![g(ok as u8)]) } else if ok { Some(vec![g(1)]) } else { Some(skip()) }
         }
+        // accessor / kernel panel on an ACCEPTED layout: every safe call must stay within the buffers.
+        // [path][tree] -> [1] (no panic) ; skip when rejected or when the tree contains a known validation gap
+        "c09.panel" => {
+            let path = to_usize(&a[0]);
+            let rest: Args = a[1..].to_vec();
+            let node = decode(&rest, &mut p);
+            if has_known_gap(&node) { return Some(skip()) }
+            let built = std::panic::catch_unwind(std::panic::AssertUnwindSafe(|| match path { 0 => build_try_new(&node), _ => build_checked(&node) })).unwrap_or(None);
+            let Some(data) = built else { return Some(skip()) };
+            // A safe panic (unsupported type, assertion) keeps every access inside its buffers and is not a
+            // violation of C09; an out-of-bounds access aborts the debug build (std precondition checks), which
+            // the check reports through the crash file with this case as the failing input.
+            let _ = std::panic::catch_unwind(std::panic::AssertUnwindSafe(|| panel(data)));
+            Some(vec![g(1)])
+        }
         _ => None,
     }
+}
+
+/// F4 (struct / non-nullable fixed-size-list at a non-zero offset) and F5 (union ids unvalidated):
+/// typed constructors are known to panic (safely) on such accepted layouts.
+fn has_known_gap(n: &Node) -> bool {
+    (match &n.ty { Ty::Struct(_) => n.off != 0, Ty::FixedList { nullable: false, .. } => n.off != 0, Ty::Union { .. } => true, _ => false })
+        || n.kids.iter().any(has_known_gap)
+}
+
+fn panel(data: ArrayData) {
+    use arrow_array::{make_array, Array, BooleanArray, UInt32Array};
+    let arr = make_array(data);
+    let n = arr.len();
+    // formatter touches every value through the typed accessors
+    if let Ok(f) = arrow_cast::display::ArrayFormatter::try_new(arr.as_ref(), &arrow_cast::display::FormatOptions::default()) {
+        for i in 0..n { let _ = f.value(i).try_to_string(); }
+    }
+    for i in 0..n { let _ = arr.is_null(i); }
+    let _ = arr.logical_null_count();
+    if n > 0 { let s = arr.slice(n / 2, n - n / 2); let _ = s.to_data().validate_full(); }
+    let idx = UInt32Array::from((0..n as u32).rev().collect::<Vec<_>>());
+    if let Ok(t) = arrow_select::take::take(arr.as_ref(), &idx, None) { let _ = t.to_data().validate_full(); }
+    let mask = BooleanArray::from((0..n).map(|i| i % 2 == 0).collect::<Vec<_>>());
+    let _ = arrow_select::filter::filter(arr.as_ref(), &mask);
+    let _ = arrow_select::concat::concat(&[arr.as_ref(), arr.as_ref()]);
+    let _ = arrow_ord::sort::sort_to_indices(arr.as_ref(), None, None);
+    if let Ok(conv) = arrow_row::RowConverter::new(vec![arrow_row::SortField::new(arr.data_type().clone())]) { let _ = conv.convert_columns(&[arr.clone()]); }
+    let _ = arrow_cast::cast(arr.as_ref(), &arrow_schema::DataType::Utf8);
+    assert!(arr.to_data() == arr.to_data());
 }
 
 // ------------------------------------------------------------------ generator of valid layouts
@@ -431,6 +475,7 @@ pub fn generate(tier: &str, r: &mut Rng, emit: &mut dyn FnMut(Case)) {
         let mut tenc = Vec::new(); enc_ty(&node.ty, &mut tenc);
         let tag = format!("p{path} t{}.{} m{}", tenc[0], tenc.get(1).copied().unwrap_or(0), names.join("+"));
         emit(Case::new("c09.validate", args.clone(), &["c09.validate"], tag.clone()));
-        emit(Case::new("c09.accepts", args, &["c09.accepts.spec"], tag));
+        emit(Case::new("c09.accepts", args.clone(), &["c09.accepts.spec"], tag.clone()));
+        if path != 1 { emit(Case::new("c09.panel", args, &["c09.panel.post1"], tag)); }
     }
 }
